@@ -133,8 +133,8 @@ func checkC07(ctx *core.Ctx, rep *core.Report) {
 	if !ctx.Quick() {
 		nth = 6
 	}
-	sel := pickSeeds(all, argInt(ctx, "nth", nth))
-	xstate.Explore(ctx, rep, xstate.Options{Seeds: sel, Depth: 1}, func(st *xstate.State) {
+	sel := pickSeedsPlain(all, argInt(ctx, "nth", nth))
+	xstate.Explore(ctx, rep, xstate.Options{Seeds: sel, Depth: 1, NoCompound: ctx.Quick()}, func(st *xstate.State) {
 		for _, b := range c07State(st, fam, len(st.Path) == 0, rep) {
 			rp := st.Replay()
 			rep.Violate(b[0], b[1]+" [seed "+st.Seed.Name+" path "+strings.Join(st.Path, ",")+"]", rp)
